@@ -69,7 +69,8 @@ def run(ctx):
                         if size:
                             oo["size"] = n if n else 7
                         cid = len(base) + 1
-                        base.append({"id": cid, "input": fl.input_for(rnd, n, rnd.choice(["text", "blockmix"])), "opts": oo, "calls": h,
+                        # (a legacy frame with an incompressible 8 MiB block is the known C09 finding: text only there)
+                        base.append({"id": cid, "input": fl.input_for(rnd, n, "text" if legacy else rnd.choice(["text", "blockmix"])), "opts": oo, "calls": h,
                                      "save": os.path.join(d, "ff-%d.lz4" % cid)})
                         base[-1]["input"]["p1"] = B
     ff, faults = fl.shard_run(b, "frame-write", base, d, "ff")
